@@ -129,6 +129,41 @@ fn schema_words() -> Schema {
     schema.build()
 }
 
+/// A layout with other field NAMES altogether (what a much older or newer release might have written).
+fn schema_other_fields() -> Schema {
+    let mut schema = Schema::builder();
+    schema.add_bytes_field("payload", STORED);
+    schema.add_text_field("title", tantivy::schema::TEXT | STORED);
+    schema.build()
+}
+
+pub fn build_foreign_fields(dir: &Path, docs: &[(Vec<String>, Vec<u8>)]) -> Result<(), String> {
+    if dir.is_dir() {
+        std::fs::remove_dir_all(dir).map_err(|e| e.to_string())?;
+    }
+    std::fs::create_dir_all(dir).map_err(|e| e.to_string())?;
+    let index = Index::create_in_dir(dir, schema_other_fields()).map_err(|e| format!("create: {e}"))?;
+    let s = index.schema();
+    let payload = s.get_field("payload").unwrap();
+    let title = s.get_field("title").unwrap();
+    let mut writer = index
+        .writer_with_num_threads(1, 50_000_000)
+        .map_err(|e| format!("writer: {e}"))?;
+
+    for (tokens, bytes) in docs {
+        let mut doc = Document::default();
+        doc.add_bytes(payload, bytes.clone());
+        doc.add_text(title, tokens.join(" "));
+        writer.add_document(doc).map_err(|e| e.to_string())?;
+    }
+
+    writer.commit().map_err(|e| format!("commit: {e}"))?;
+    writer
+        .wait_merging_threads()
+        .map_err(|e| format!("merge: {e}"))?;
+    Ok(())
+}
+
 pub fn build_foreign(dir: &Path, docs: &[(Vec<String>, Vec<u8>)], words_layout: bool) -> Result<(), String> {
     if dir.is_dir() {
         std::fs::remove_dir_all(dir).map_err(|e| e.to_string())?;
